@@ -3,7 +3,7 @@
    scenarios now illustrate the repaired behaviour, and stay in corpus/C08/w_*.json for the harness.) *)
 From Coq Require Import List NArith Bool Lia.
 From FIM Require Import Model.T8Graph Model.T8Ops Proofs.T8Frame Proofs.T8Query Proofs.T8Sound Proofs.T8Complete
-     Proofs.T8Handles Proofs.T8Fixed.
+     Proofs.T8Handles Proofs.T8Fixed Proofs.T8Inv Proofs.T8Link Proofs.T8Prune Proofs.T8Art.
 Import ListNotations.
 Open Scope N_scope.
 
@@ -210,3 +210,66 @@ Proof. split; [eexists; split; vm_compute; reflexivity|]. vm_compute. repeat spl
 Example ex_unpeer6_node_port :
   unpeer_pairs G7 1 5 = [] /\ fst (run (exec true (OUnpeer6 1 5) [[2]; [4]]) G7) = inr ETopology.
 Proof. vm_compute. split; reflexivity. Qed.
+
+(* ---- links of three ends ---- *)
+(* G10: link 1 with three ends 2, 3, 4; each end is the port of its own node-level service (5, 6, 7) *)
+Definition G10 : graph := mkGraph
+  [ mkNode 1 CLink 14 1 false 1; mkNode 2 CCP 16 2 false 1; mkNode 3 CCP 16 3 false 1; mkNode 4 CCP 16 4 false 1;
+    mkNode 5 CNS 12 5 false 1; mkNode 6 CNS 12 6 false 1; mkNode 7 CNS 12 7 false 1 ]
+  [ mkEdge 1 2 RConnects; mkEdge 1 3 RConnects; mkEdge 1 4 RConnects;
+    mkEdge 5 2 RConnects; mkEdge 6 3 RConnects; mkEdge 7 4 RConnects ].
+
+Lemma WL_G10 : WL G10.
+Proof. apply wlb_sound. vm_compute. reflexivity. Qed.
+Lemma WL_G1 : WL G1.
+Proof. apply wlb_sound. vm_compute. reflexivity. Qed.
+
+(* removing service 5 takes end 2: two ends survive, the link stays; then removing service 6 too: one end survives,
+   the link goes (computed here on the graph after the first removal) *)
+Example ex_three_end_link :
+  trace_of (run (exec false (ORemoveNsTopo 5) []) G10) = [2; 5] /\
+  trace_of (run (exec false (ORemoveNsTopo 6) []) (fst (snd (run (exec false (ORemoveNsTopo 5) []) G10)))) = [1; 3; 6].
+Proof. vm_compute. split; reflexivity. Qed.
+
+(* G11: WL fails - port 2 of service 1 and its sub-interface 3 are BOTH ends of link 4 (third end: 5).  Removing the
+   port takes 2 and 3 in one call after one test "exactly two?" (no: three): the link stays with a single end. *)
+Definition G11 : graph := mkGraph
+  [ mkNode 1 CNS 12 1 false 1; mkNode 2 CCP 4 2 false 1; mkNode 3 CCP 5 3 false 1; mkNode 4 CLink 14 4 false 1;
+    mkNode 5 CCP 16 5 false 1 ]
+  [ mkEdge 1 2 RConnects; mkEdge 2 3 RConnects; mkEdge 2 4 RConnects; mkEdge 3 4 RConnects; mkEdge 4 5 RConnects ].
+
+Example link_iff_needs_WL :
+  wlb G11 = false /\
+  ok_of (run (exec false (ORemoveInterface 1 2) [[2]]) G11) = true /\
+  trace_of (run (exec false (ORemoveInterface 1 2) [[2]]) G11) = [2; 3] /\
+  class_of G11 4 = CLink /\ sortN (cpn G11 4) = [2; 3; 5] /\
+  surv (snd (snd (run (exec false (ORemoveInterface 1 2) [[2]]) G11))) (cpn G11 4) = [5].
+Proof. vm_compute. repeat split; reflexivity. Qed.
+
+(* G12: node 1 with two node-level services 2 and 3 that PEER WITH EACH OTHER: service port 4 of 2 - link 6 - service
+   port 5 of 3.  remove_node: the loop disconnects 4 (deleting its peer 5 and the link) and then SKIPS 5 (fix 5286851);
+   the hypothesis self_peer_free of C08_artefact_ports_deleted fails for ii = 5, WP holds, and the port 4 across the
+   link from the skipped 5 is deleted with the node *)
+Definition G12 : graph := mkGraph
+  [ mkNode 1 CNode 10 1 false 1; mkNode 2 CNS 12 2 false 1; mkNode 3 CNS 12 3 false 1;
+    mkNode 4 CCP 1 4 false 1; mkNode 5 CCP 1 5 false 1; mkNode 6 CLink 14 6 false 1 ]
+  [ mkEdge 1 2 RHas; mkEdge 1 3 RHas; mkEdge 2 4 RConnects; mkEdge 3 5 RConnects; mkEdge 4 6 RConnects; mkEdge 5 6 RConnects ].
+
+Lemma WP_G12 : WP G12.
+Proof. apply wpb_sound. vm_compute. reflexivity. Qed.
+Lemma WP_G1 : WP G1.
+Proof. apply wpb_sound. vm_compute. reflexivity. Qed.
+
+Lemma link2_G12 : link2 G12 6 5 4.
+Proof.
+  split; [vm_compute; reflexivity|]. split; [discriminate|]. intros y.
+  assert (E : cpn G12 6 = [4; 5]) by (vm_compute; reflexivity). rewrite E. simpl.
+  split; [intros [H|[H|[]]]; auto | intros [H|H]; auto].
+Qed.
+
+Example ex_own_services_peer :
+  ok_of (run (exec true (ORemoveNode 1) []) G12) = true /\
+  trace_of (run (exec true (ORemoveNode 1) []) G12) = [1; 2; 3; 4; 5; 6] /\
+  topo_nodes G12 1 = [1] /\ sortN (disc_list G12 (node_interface_list G12 1)) = [4; 5] /\
+  peer_cps G12 4 = [5] /\ type_of G12 4 = T_ServicePort.
+Proof. vm_compute. repeat split; reflexivity. Qed.
